@@ -1293,6 +1293,33 @@ example : migrate cfg { exState with deposits := [((1, 11), 10)], props := [(1, 
       { exState with deposits := [((1, 11), 10)], props := [(1, { proposer := 3, status := 0, depEnd := 210, voteEnd := 0, total := 10 })] } 1 11 true = .ok s' :=
   ⟨rfl, _, rfl⟩
 
+
+/-! ### non-vacuity of later_behaviour_equal_reachable -/
+
+/-- a state without any staking record: one validator, a funded user with key, funded pools -/
+def exBase : State :=
+  { vals := [100], hasKey := [1], valTok := [(100, 1000)], period := [(100, 2)],
+    bal := [((1, 0), 500), ((1, 1), 7), ((bondedPool, 0), 1000), ((notBondedPool, 0), 5)] }
+
+/-- delegate, undelegate part of it, let a block pass -/
+def exBefore : List Op := [.delegate 1 100 90 0, .undelegate 1 100 10 0, .block 5]
+
+/-- the four invariants hold in `exBase` (no staking records), the migration of 1 to 11 after `exBefore` is accepted, and
+`MigEnv` holds in the state reached: all hypotheses of `later_behaviour_equal_reachable` are satisfiable together; 300
+seconds later the unbonding entry has matured and is paid to the target -/
+example : IdxInv exBase ∧ QInv exBase ∧ (SiInv exBase ∧ IdInv exBase) ∧
+    (∃ s', migrate cfg (run cfg exBase exBefore) 1 11 true = .ok s' ∧
+      balOf (run cfg s' [.block 300, .block 1]).bal 11 0 = balOf s'.bal 11 0 + 10) ∧
+    MigEnv (run cfg exBase exBefore) 1 11 := by
+  refine ⟨idxInv_base exBase rfl rfl rfl rfl rfl rfl rfl, qInv_base exBase rfl rfl, siIdInv_base exBase rfl rfl rfl rfl,
+    ⟨_, rfl, by decide⟩, ⟨⟨by decide, by decide, by decide⟩, rfl, rfl, fun a w h => ?_, fun p hp => ?_, fun p hp => ?_, rfl, rfl⟩⟩
+  · have : (run cfg exBase exBefore).wdAddr = [] := rfl
+    rw [this, get_nil] at h; cases h
+  · have : (run cfg exBase exBefore).deposits = [] := rfl
+    rw [this] at hp; cases hp
+  · have : (run cfg exBase exBefore).votes = [] := rfl
+    rw [this] at hp; cases hp
+
 /-! ### non-vacuity of later_behaviour_equal -/
 
 /-- the example state with a funded not-bonded pool -/
